@@ -262,8 +262,10 @@ Proof.
   unfold no_nested in H1. apply negb_true_iff in H1.
   repeat split; auto.
   - intros X. rewrite X in H4. exact H4.
-  - destruct g; [apply andb_true_iff in H0 as [? ?]; unfold nvar_guid_size in *; split; auto; lia
-                | unfold byte_ok in H0; lia].
+  - destruct g as [g0|i0].
+    + apply andb_true_iff in H0 as [Hb Hl]. split; [exact Hb|]. apply Z.eqb_eq in Hl. exact Hl.
+    + unfold byte_ok in H0. apply andb_true_iff in H0 as [Hb Hl].
+      apply Z.leb_le in Hb. apply Z.ltb_lt in Hl. split; assumption.
 Qed.
 
 Lemma wf_entry_data nt a n d : wf_entry nt (AData a n d) = true ->
@@ -294,6 +296,37 @@ Proof.
   intros [->| ->]; unfold parse_next, next_of; cbn [Z.eqb]; simpl (_ =? _)%positive.
   - destruct (next =? 0); reflexivity.
   - destruct (next =? 16777215); reflexivity.
+Qed.
+
+Lemma full_slices a n g nm d :
+  slice 10 (ae_size (AFull a n g nm d)) (emit_entry (AFull a n g nm d)) =
+    Some (gref_bytes g ++ name_bytes nm ++ d) /\
+  slice (10 + zlen (gref_bytes g)) (ae_size (AFull a n g nm d)) (emit_entry (AFull a n g nm d)) =
+    Some (name_bytes nm ++ d) /\
+  slice (10 + zlen (gref_bytes g) + zlen (name_bytes nm)) (ae_size (AFull a n g nm d))
+        (emit_entry (AFull a n g nm d)) = Some d.
+Proof.
+  set (e := AFull a n g nm d).
+  set (h := emit_header (ae_size e) n a).
+  assert (Lh : zlen h = 10) by apply zlen_emit_header.
+  assert (Ee : emit_entry e = h ++ gref_bytes g ++ name_bytes nm ++ d) by reflexivity.
+  assert (Ls : ae_size e = 10 + (zlen (gref_bytes g) + (zlen (name_bytes nm) + zlen d))).
+  { unfold ae_size, nvar_header_size, e. cbn [ae_body]. rewrite !zlen_app. reflexivity. }
+  rewrite Ee. repeat split.
+  - rewrite <- Lh at 1. replace (ae_size e) with (zlen h + zlen (gref_bytes g ++ name_bytes nm ++ d))
+      by (rewrite Ls, Lh, !zlen_app; reflexivity).
+    apply slice_suffix.
+  - rewrite app_assoc.
+    replace (10 + zlen (gref_bytes g)) with (zlen (h ++ gref_bytes g)) by (rewrite zlen_app, Lh; reflexivity).
+    replace (ae_size e) with (zlen (h ++ gref_bytes g) + zlen (name_bytes nm ++ d))
+      by (rewrite Ls, !zlen_app, Lh; ring).
+    apply slice_suffix.
+  - rewrite !app_assoc.
+    replace (10 + zlen (gref_bytes g) + zlen (name_bytes nm)) with (zlen ((h ++ gref_bytes g) ++ name_bytes nm))
+      by (rewrite !zlen_app, Lh; reflexivity).
+    replace (ae_size e) with (zlen ((h ++ gref_bytes g) ++ name_bytes nm) + zlen d)
+      by (rewrite Ls, !zlen_app, Lh; ring).
+    apply slice_suffix.
 Qed.
 
 Lemma entry_fields e rest : 0 <= ae_attrs e < 256 -> 0 <= ae_next e < 2 ^ 24 -> ae_size e < 2 ^ 16 ->
@@ -387,16 +420,7 @@ Proof.
       rewrite EX; [|reflexivity].
     rewrite Wdo.
     rewrite zlen_emit_entry.
-    assert (Ebody : emit_entry (AFull a n g nm d) =
-                    emit_header (ae_size (AFull a n g nm d)) n a ++ gref_bytes g ++ name_bytes nm ++ d) by reflexivity.
-    pose proof (zlen_emit_header (ae_size (AFull a n g nm d)) n a) as Lh.
-    assert (S1 : slice 10 (ae_size (AFull a n g nm d)) (emit_entry (AFull a n g nm d)) =
-                 Some (gref_bytes g ++ name_bytes nm ++ d)).
-    { rewrite Ebody. rewrite <- Lh at 1.
-      replace (ae_size (AFull a n g nm d)) with
-          (zlen (emit_header (ae_size (AFull a n g nm d)) n a) + zlen (gref_bytes g ++ name_bytes nm ++ d))
-        by (rewrite Lh; reflexivity).
-      apply slice_suffix. }
+    destruct (full_slices a n g nm d) as (S1 & S2 & S3).
     rewrite S1. cbn [of_opt bind].
     assert (XO : ext_ok (AFull a n g nm d) = true).
     { unfold ext_ok. cbn [ae_attrs]. unfold nvar_header_size. rewrite EX. reflexivity. }
@@ -404,59 +428,20 @@ Proof.
     assert (Easc' : eqb (ATTR a nvar_attr_ascii) (is_ascii nm) = true) by (rewrite Easc; apply eqb_reflx).
     destruct g as [gb|i]; cbn [is_inline gref_bytes wf_gref] in *.
     + rewrite Egd. destruct Wg as [_ Lg]. unfold nvar_guid_size in *.
-      rewrite zlen_app. pose proof (zlen_nonneg (name_bytes nm ++ d)).
-      replace (zlen gb + zlen (name_bytes nm ++ d) <? 16) with false by lia.
-      replace 16 with (zlen gb) at 1 by lia. rewrite zfirstn_app_exact. cbn [bind].
-      assert (S2 : slice (10 + 16) (ae_size (AFull a n (GInline gb) nm d)) (emit_entry (AFull a n (GInline gb) nm d)) =
-                   Some (name_bytes nm ++ d)).
-      { rewrite Ebody. cbn [gref_bytes]. rewrite app_assoc.
-        replace (10 + 16) with (zlen (emit_header (ae_size (AFull a n (GInline gb) nm d)) n a ++ gb))
-          by (rewrite zlen_app, Lh; lia).
-        replace (ae_size (AFull a n (GInline gb) nm d)) with
-          (zlen (emit_header (ae_size (AFull a n (GInline gb) nm d)) n a ++ gb) + zlen (name_bytes nm ++ d)) at 2.
-        - apply slice_suffix.
-        - rewrite zlen_app, Lh. unfold ae_size, nvar_header_size. cbn [ae_body gref_bytes]. rewrite !zlen_app. lia. }
+      rewrite Lg in S2, S3.
+      rewrite zlen_app, Lg.
+      replace (16 + zlen (name_bytes nm ++ d) <? 16) with false
+        by (clear; pose proof (zlen_nonneg (name_bytes nm ++ d)); lia).
+      rewrite <- Lg at 1. rewrite zfirstn_app_exact. cbn [bind].
       rewrite S2. cbn [of_opt bind].
       rewrite parse_name_emit by auto. cbn [bind fst snd].
-      assert (S3 : slice (10 + 16 + zlen (name_bytes nm)) (ae_size (AFull a n (GInline gb) nm d))
-                         (emit_entry (AFull a n (GInline gb) nm d)) = Some d).
-      { rewrite Ebody. cbn [gref_bytes]. rewrite !app_assoc.
-        replace (10 + 16 + zlen (name_bytes nm)) with
-            (zlen ((emit_header (ae_size (AFull a n (GInline gb) nm d)) n a ++ gb) ++ name_bytes nm))
-          by (rewrite !zlen_app, Lh; lia).
-        replace (ae_size (AFull a n (GInline gb) nm d)) with
-          (zlen ((emit_header (ae_size (AFull a n (GInline gb) nm d)) n a ++ gb) ++ name_bytes nm) + zlen d) at 2.
-        - apply slice_suffix.
-        - rewrite !zlen_app, Lh. unfold ae_size, nvar_header_size. cbn [ae_body gref_bytes]. rewrite !zlen_app. lia. }
       rewrite S3. cbn [of_opt bind].
       rewrite Wnn. cbn [negb].
-      replace (zlen gb) with 16 by lia.
       destruct (zlen d <? 4); reflexivity.
-    + rewrite Egd.
-      cbn [app]. rewrite get_guid_table by (auto; lia). cbn [bind].
-      assert (S2 : slice (10 + 1) (ae_size (AFull a n (GIndex i) nm d)) (emit_entry (AFull a n (GIndex i) nm d)) =
-                   Some (name_bytes nm ++ d)).
-      { rewrite Ebody. cbn [gref_bytes]. rewrite app_assoc.
-        replace (10 + 1) with (zlen (emit_header (ae_size (AFull a n (GIndex i) nm d)) n a ++ [i]))
-          by (rewrite zlen_app, Lh; reflexivity).
-        replace (ae_size (AFull a n (GIndex i) nm d)) with
-          (zlen (emit_header (ae_size (AFull a n (GIndex i) nm d)) n a ++ [i]) + zlen (name_bytes nm ++ d)) at 2.
-        - apply slice_suffix.
-        - rewrite zlen_app, Lh. unfold ae_size, nvar_header_size. cbn [ae_body gref_bytes]. rewrite !zlen_app.
-          change (zlen [i]) with 1. lia. }
+    + rewrite Egd. change (zlen [i]) with 1 in S2, S3.
+      cbn [app]. rewrite get_guid_table by (auto; clear - Wxg; lia). cbn [bind].
       rewrite S2. cbn [of_opt bind].
       rewrite parse_name_emit by auto. cbn [bind fst snd].
-      assert (S3 : slice (10 + 1 + zlen (name_bytes nm)) (ae_size (AFull a n (GIndex i) nm d))
-                         (emit_entry (AFull a n (GIndex i) nm d)) = Some d).
-      { rewrite Ebody. cbn [gref_bytes]. rewrite !app_assoc.
-        replace (10 + 1 + zlen (name_bytes nm)) with
-            (zlen ((emit_header (ae_size (AFull a n (GIndex i) nm d)) n a ++ [i]) ++ name_bytes nm))
-          by (rewrite !zlen_app, Lh; reflexivity).
-        replace (ae_size (AFull a n (GIndex i) nm d)) with
-          (zlen ((emit_header (ae_size (AFull a n (GIndex i) nm d)) n a ++ [i]) ++ name_bytes nm) + zlen d) at 2.
-        - apply slice_suffix.
-        - rewrite !zlen_app, Lh. unfold ae_size, nvar_header_size. cbn [ae_body gref_bytes]. rewrite !zlen_app.
-          change (zlen [i]) with 1. lia. }
       rewrite S3. cbn [of_opt bind].
       rewrite Wnn. cbn [negb].
       change (zlen [i]) with 1.
@@ -804,11 +789,15 @@ Proof.
     destruct (parse_ext a _ _ nvar_header_size) as [ext|x|x|]; [|reflexivity..].
     unfold emit_entry. cbn [ae_body ae_next ae_attrs].
     rewrite (app_assoc (gref_bytes g)).
-    destruct g as [gb|i]; cbn [fst]; apply asm_nvar_id; auto;
-      try (unfold gpart_of; cbn [v_attrs v_guid v_gidx v_name]; rewrite Wdo, Egd; cbn [is_inline bind gref_bytes];
-           rewrite name_part by auto; reflexivity);
-      try (rewrite zlen_app; unfold nvar_header_size; lia);
-      try (unfold ae_size, nvar_header_size in *; cbn [ae_body] in *; rewrite !zlen_app in *; lia).
+    assert (Lsz : ae_size (AFull a n g nm d) = 10 + zlen (gref_bytes g ++ name_bytes nm) + zlen d).
+    { unfold ae_size, nvar_header_size. cbn [ae_body]. rewrite !zlen_app. ring. }
+    assert (Ldo : nvar_header_size + zlen (gref_bytes g) + zlen (name_bytes nm) =
+                  10 + zlen (gref_bytes g ++ name_bytes nm)).
+    { unfold nvar_header_size. rewrite zlen_app. ring. }
+    destruct g as [gb|i]; cbn [fst gref_bytes is_inline] in *;
+      (apply asm_nvar_id; auto;
+       unfold gpart_of; cbn [v_attrs v_guid v_gidx v_name]; rewrite Wdo, Egd; cbn [bind];
+       rewrite name_part by auto; reflexivity).
   - apply wf_entry_data in W as (Wv & Wdo & Wd & Wnn).
     destruct (next_of pol off n) as [t0 nextoff] eqn:NO.
     pose proof (write3_next pol off n t0 nextoff Hpol Hn Ho ltac:(intros (? & ? & ?); apply Hfirst; auto) NO) as W3.
@@ -895,7 +884,7 @@ Proof.
   split; [|reflexivity].
   rewrite asm_store_unfold. cbn [s_entries s_guids s_len s_buf].
   rewrite map_out_id by exact Ea. cbn [bind].
-  rewrite Eb. cbn [app]. fold (emit_entries (a_entries s)).
+  cbn [map app] in Eb. rewrite Eb. fold (emit_entries (a_entries s)).
   rewrite zfirstn_all by lia.
   unfold nvar_guid_size. rewrite Le.
   rewrite (Z.mod_small (store_len s - 16 * zlen (a_table s))) by lia.
